@@ -14,6 +14,7 @@ import (
 	"testing"
 
 	"github.com/dominant-strategies/go-quai/common"
+	"github.com/dominant-strategies/go-quai/core/rawdb"
 	"github.com/dominant-strategies/go-quai/core/types"
 	"github.com/dominant-strategies/go-quai/params"
 	"github.com/dominant-strategies/go-quai/rlp"
@@ -32,6 +33,7 @@ const (
 	fpWrapETX     = "C05/opETX/debit-wrapped-mod-2^256/legacy-arith-before-SelfDestructRefundFork"
 	fpWrapConvert = "C05/opConvert/debit-wrapped-mod-2^256/legacy-arith-before-SelfDestructRefundFork"
 	fpCreateOOG   = "C05/tx-failed/debit-kept-etx-dropped/create-codestore-oog-not-reverted"
+	fpClaimRevert = "C05/ClaimCoinbaseLockup/rolled-back-claim-record-not-restored"
 )
 
 var (
@@ -234,6 +236,10 @@ func checkEtxFields(etx *types.Transaction, wantValue *big.Int, wantTo common.Ad
 	}
 	return strings.Join(bad, "; ")
 }
+
+// reportKnown makes dynamically classified known findings go through stats.Violation instead of
+// being counted as excluded (set by the hand-written regression inputs).
+var reportKnown = false
 
 // checkCase applies the per-operation and per-transaction oracles.
 func checkCase(t stats.TB, part string, c *evmgen.Case, o *evmgen.Outcome) *caseReport {
@@ -552,6 +558,44 @@ func checkCase(t stats.TB, part string, c *evmgen.Case, o *evmgen.Outcome) *case
 		}
 		want = append(want, em.etx)
 	}
+	// ---- a successful lockup claim that is rolled back must give the record back -------------------
+	// (the outbound ETX is dropped with the frame; all-or-nothing demands that the debit is too)
+	for i, em := range emitted {
+		if em.op.Kind != "CALL-LOCKUP" || len(em.op.Input) != 53 {
+			continue
+		}
+		rolled, _ := tr.RolledBack(em.op.Frame, maxCode, txFailed)
+		if !rolled && !txFailed {
+			continue
+		}
+		cr.label("claim-rolled-back")
+		// a later claim of the same record that survives legitimately removes it
+		superseded := false
+		for _, later := range emitted[i+1:] {
+			if later.op.Kind == "CALL-LOCKUP" && len(later.op.Input) == 53 && later.op.Emitter.Equal(em.op.Emitter) && string(later.op.Input[:20]) == string(em.op.Input[:20]) && string(later.op.Input[40:45]) == string(em.op.Input[40:45]) {
+				if lr, _ := tr.RolledBack(later.op.Frame, maxCode, txFailed); !lr && !txFailed {
+					superseded = true
+				}
+			}
+		}
+		if superseded {
+			continue
+		}
+		in := em.op.Input
+		miner := common.BytesToAddress(in[:20], evmgen.Loc)
+		epoch := uint32(in[41])<<24 | uint32(in[42])<<16 | uint32(in[43])<<8 | uint32(in[44])
+		bal, unlock, _, _ := rawdb.ReadCoinbaseLockup(o.World.KV, o.World.Batch, em.op.Emitter, miner, in[40], epoch)
+		if unlock == 0 || bal.Cmp(em.op.RecBefore) != 0 {
+			msg := fmt.Sprintf("lockup claim at pc=%d frame=%d by %s succeeded (record balance %v) and was then rolled back (frame reverted or transaction failed): no ETX is exported, but the record now reads balance %v unlock %d in the block batch — the locked reward is destroyed",
+				em.op.PC, em.op.Frame, evmgen.U().Name(em.op.Emitter), em.op.RecBefore, bal, unlock)
+			if stats.IsKnown(fpClaimRevert) && !reportKnown {
+				stats.Excluded(fpClaimRevert)
+			} else {
+				viol(fpClaimRevert, msg, em.op)
+			}
+		}
+	}
+
 	got := res.Receipt.OutboundEtxs
 	if txFailed {
 		if len(got) != 0 {
@@ -568,6 +612,10 @@ func checkCase(t stats.TB, part string, c *evmgen.Case, o *evmgen.Outcome) *case
 				why = " (top-level creation failed with code-store out of gas, which evm.create does not revert; applyTransaction drops result.Etxs of a failed transaction)"
 			}
 			bal := o.After.Get(mustInternal(em.op.Emitter))
+			if fp == fpCreateOOG && stats.IsKnown(fp) && !reportKnown {
+				stats.Excluded(fp)
+				continue
+			}
 			viol(fp, fmt.Sprintf("%s at pc=%d frame=%d by %s succeeded and its debit persists (emitter balance now %v) but the failed transaction exports no ETX%s", em.op.Kind, em.op.PC, em.op.Frame, evmgen.U().Name(em.op.Emitter), bal, why), em.op)
 		}
 	} else {
